@@ -200,6 +200,19 @@ func (i *interpreter) intercept(caller *frame, callpos token.Pos, fn *ssa.Functi
 				return strings.Repeat("a", int(asInt64(args[1]))), true
 			}
 			return w.newAtom(nm, int(asInt64(args[1])), int(asInt64(args[2])), argStr(args[3])), true
+		case "verifEnum":
+			nm := argStr(args[0])
+			var vocab []string
+			for _, v := range args[1].([]value) {
+				vocab = append(vocab, v.(string))
+			}
+			if ri := w.cfg().ReplayInputs; ri != nil {
+				if v, ok := ri[nm].(string); ok {
+					return v, true
+				}
+				return vocab[0], true
+			}
+			return w.newEnum(nm, vocab), true
 		case "verifAssume":
 			w.verifAssume(args[0], "")
 			return nil, true
